@@ -36,7 +36,7 @@ def t_class(tree):
     t = tree
     while t["k"] in ("option", "wrap", "ref", "path"):
         t = t["e"]
-    return {"prim": "prim:" + t.get("n", ""), "vec": "seq", "array": "seq", "slice": "seq", "map": "map", "user": "user" + ("<>" if t.get("args") else ""), "param": "param"}[t["k"]]
+    return {"prim": "prim:" + t.get("n", ""), "vec": "seq", "array": "seq", "slice": "seq", "map": "map", "map3": "map", "user": "user" + ("<>" if t.get("args") else ""), "param": "param"}[t["k"]]
 
 
 def run(chk):
